@@ -42,6 +42,17 @@ func init() {
 		Run:   ruleCov3,
 	})
 	register(&Rule{
+		ID: "COV-6",
+		Doc: "Going to sleep is decided on presence, not on content: a branch condition that controls (a) the merger arming its wake-up channel (a store of a freshly made channel into " +
+			"collection.waitDirtyIncomingCh) or (b) a ping of the merger from a background task (a send on pingMergerCh outside the API function NotifyMerger) must not be computed from a pure " +
+			"content measure - len(<stack>.a), or a segmentStack method that (transitively) reads nothing of the stack but a and childSegStacks - of stackDirtyTop / stackDirtyMid. A non-nil dirty " +
+			"section may hold nothing but the creation or deletion of a child collection, which no content measure can see; left in the top or middle section it never reaches the lower level " +
+			"(second half of D17). Nil tests, and methods that consult any other state of the stack, are accepted.",
+		Props: []string{"C11", "C04", "C20"},
+		Floor: 0,
+		Run:   ruleCov6,
+	})
+	register(&Rule{
 		ID: "REF-3",
 		Doc: "Zero closes the next level: the refs <= 0 branch of each release function releases every owning field of its type – segmentStack.decRef: lowerLevelSnapshot; " +
 			"SnapshotWrapper.decRef: ss, closer; Footer.DecRef: SegmentLocs; mmapRef.DecRef: mm (Unmap), fref; FileRef.DecRef: file; Store.Close: footer.",
@@ -445,6 +456,75 @@ func ruleCov3(c *Ctx) []*Ob {
 		looks := false
 		for _, a := range fieldAccesses(persist, func(v *types.Var) bool { return v.Name() == "ChildFooters" }) {
 			if mustPrecede(persist, b.Succs[0].Instrs[0], func(i ssa.Instruction) bool { return i == a.Instr }, nil) {
+				looks = true
+			}
+		}
+		// ... or through a helper that compares the footer's children with the incoming stack's: a call on every path
+		// to the skip whose callee (transitively) reads ChildFooters and is handed the incoming stack
+		ssArg := call.Call.Args[0]
+		for _, ci := range callsIn(persist, func(ci ssa.CallInstruction) bool {
+			h := staticCallee(ci)
+			return h != nil && h.Pkg == c.Moss && h != isEmpty && readsFieldDeep(c, h, "ChildFooters", 3)
+		}) {
+			takesStack := false
+			for _, a := range ci.Common().Args {
+				for _, og := range origins(a) {
+					for _, og2 := range origins(ssArg) {
+						if og == og2 {
+							takesStack = true
+						}
+					}
+				}
+			}
+			if !takesStack || !mustPrecede(persist, skipReturn(b.Succs[0]), func(i ssa.Instruction) bool { return i == ci.(ssa.Instruction) }, nil) {
+				continue
+			}
+			// ... and the skip is taken only on one outcome of the comparison: from the other edge of the test of
+			// the helper's result the skipping return is not reachable without passing buildNewFooter
+			cv, isVal := ci.(ssa.Value)
+			if !isVal {
+				continue
+			}
+			ret := skipReturn(b.Succs[0])
+			decided := false
+			for _, tb := range persist.Blocks {
+				tif, isIf := tb.Instrs[len(tb.Instrs)-1].(*ssa.If)
+				if !isIf {
+					continue
+				}
+				cond := tif.Cond
+				for {
+					if u, isU := cond.(*ssa.UnOp); isU && u.Op == token.NOT {
+						cond = u.X
+						continue
+					}
+					break
+				}
+				fromHelper := false
+				for _, og := range origins(cond) {
+					if og == cv {
+						fromHelper = true
+					}
+				}
+				if !fromHelper {
+					continue
+				}
+				reach := func(start *ssa.BasicBlock) bool {
+					hit := false
+					walk(point{start, 0}, walkOpts{visit: func(i ssa.Instruction, t *tracker) bool {
+						if i == ret {
+							hit = true
+							return true
+						}
+						return isCallOf(i, bnf)
+					}})
+					return hit
+				}
+				if reach(tb.Succs[0]) != reach(tb.Succs[1]) {
+					decided = true
+				}
+			}
+			if decided {
 				looks = true
 			}
 		}
@@ -984,4 +1064,229 @@ func ruleCov5(c *Ctx) []*Ob {
 		o.trivial("-", "no shared stack's lowerLevelSnapshot is replaced", "-", "nothing to decide")
 	}
 	return o.list
+}
+
+// ---------------------------------------------------------------- COV-6
+
+// blockReach: blocks reachable from `from` without entering `avoid` and without taking a loop's back edge.
+func blockReach(from, avoid *ssa.BasicBlock) map[*ssa.BasicBlock]bool {
+	seen := map[*ssa.BasicBlock]bool{}
+	var dfs func(b *ssa.BasicBlock)
+	dfs = func(b *ssa.BasicBlock) {
+		if b == avoid || seen[b] {
+			return
+		}
+		seen[b] = true
+		for _, s := range b.Succs {
+			if s.Dominates(b) {
+				continue // back edge: the next iteration is a new decision
+			}
+			dfs(s)
+		}
+	}
+	dfs(from)
+	return seen
+}
+
+// controllingIfs: the If instructions of site's function on which the execution of site depends: site is reachable
+// from exactly one of the two successors (on paths that do not come back to the test).
+func controllingIfs(site ssa.Instruction) []*ssa.If {
+	var out []*ssa.If
+	sb := site.Block()
+	for _, d := range sb.Parent().Blocks {
+		iff, ok := d.Instrs[len(d.Instrs)-1].(*ssa.If)
+		if !ok || len(d.Succs) != 2 {
+			continue
+		}
+		r0 := blockReach(d.Succs[0], d)[sb]
+		r1 := blockReach(d.Succs[1], d)[sb]
+		if r0 != r1 {
+			out = append(out, iff)
+		}
+	}
+	return out
+}
+
+func ruleCov6(c *Ctx) []*Ob {
+	o := newObs(c, "COV-6")
+	fWait := c.Field("collection", "waitDirtyIncomingCh")
+	fPing := c.Field("collection", "pingMergerCh")
+	notify := c.Fn("(*collection).NotifyMerger")
+	// is segmentStack method h a pure content measure (reads only a / childSegStacks of the stack, transitively)?
+	memo := map[*ssa.Function]int{}
+	var pure func(h *ssa.Function) bool
+	pure = func(h *ssa.Function) bool {
+		switch memo[h] {
+		case 1:
+			return true
+		case 2:
+			return false
+		case 3:
+			return true // recursion: decided by the rest
+		}
+		memo[h] = 3
+		ok := true
+		for fld := range fieldsRead(h, "segmentStack", nil) {
+			if fld != "a" && fld != "childSegStacks" {
+				ok = false
+			}
+		}
+		eachInstr(h, func(i ssa.Instruction) {
+			if call, isCall := i.(*ssa.Call); isCall && ok {
+				if g := call.Call.StaticCallee(); g != nil && g.Pkg == c.Moss && g.Signature.Recv() != nil && typeName(g.Signature.Recv().Type()) == "segmentStack" {
+					ok = pure(g)
+				}
+			}
+		})
+		if ok {
+			memo[h] = 1
+		} else {
+			memo[h] = 2
+		}
+		return ok
+	}
+	dirtySection := func(v ssa.Value) string {
+		for _, og := range originsDeep(c, v) {
+			if fs, _ := loadedField(og); fs != nil && (fs.Name() == "stackDirtyTop" || fs.Name() == "stackDirtyMid") {
+				return fs.Name()
+			}
+		}
+		return ""
+	}
+	type site struct {
+		i    ssa.Instruction
+		what string
+	}
+	for _, f := range c.Funcs {
+		if !collectionMethod(f) || root(f) == notify {
+			continue
+		}
+		var sites []site
+		eachInstr(f, func(i ssa.Instruction) {
+			switch x := i.(type) {
+			case *ssa.Store:
+				if fa, ok := x.Addr.(*ssa.FieldAddr); ok && fieldAddrVar(fa) == fWait {
+					for _, og := range origins(x.Val) {
+						if _, isMk := og.(*ssa.MakeChan); isMk {
+							sites = append(sites, site{i, "arming of waitDirtyIncomingCh (merger goes to sleep)"})
+							break
+						}
+					}
+				}
+			case *ssa.Send:
+				if fv, _ := loadedField(x.Chan); fv == fPing {
+					sites = append(sites, site{i, "ping of the merger"})
+				}
+			case *ssa.Select:
+				for _, st := range x.States {
+					if st.Dir == types.SendOnly {
+						if fv, _ := loadedField(st.Chan); fv == fPing {
+							sites = append(sites, site{i, "ping of the merger"})
+						}
+					}
+				}
+			}
+		})
+		fn := c.fname(f)
+		for _, st := range sites {
+			n := 0
+			for _, iff := range controllingIfs(st.i) {
+				cond := iff.Cond
+				for {
+					if u, isU := cond.(*ssa.UnOp); isU && u.Op == token.NOT {
+						cond = u.X
+						continue
+					}
+					break
+				}
+				var measures []ssa.Value
+				if cmp, isB := cond.(*ssa.BinOp); isB {
+					measures = append(measures, cmp.X, cmp.Y)
+				} else {
+					measures = append(measures, cond)
+				}
+				for _, mv := range measures {
+					call, isCall := mv.(*ssa.Call)
+					if !isCall {
+						continue
+					}
+					if bi, isBi := call.Call.Value.(*ssa.Builtin); isBi && bi.Name() == "len" {
+						fa, base := loadedField(call.Call.Args[0])
+						if fa == nil || fa.Name() != "a" || typeName(base.Type()) != "segmentStack" {
+							continue
+						}
+						if sect := dirtySection(base); sect != "" {
+							n++
+							o.add(fn, fmt.Sprintf("%s depends on len(%s.a)", st.what, sect), c.instrPos(iff), false,
+								"the decision is taken from the number of segments of "+sect+": a non-nil "+sect+" that only creates or deletes a child collection has none, stays where it is and never reaches the lower level")
+						}
+						continue
+					}
+					h := call.Call.StaticCallee()
+					if h == nil || h.Pkg != c.Moss || h.Signature.Recv() == nil || typeName(h.Signature.Recv().Type()) != "segmentStack" || len(call.Call.Args) == 0 {
+						continue
+					}
+					sect := dirtySection(call.Call.Args[0])
+					if sect == "" {
+						continue
+					}
+					n++
+					isPure := pure(h)
+					why := h.Name() + "() consults more of the stack than its segments"
+					if isPure {
+						why = "the decision is taken from " + sect + "." + h.Name() + "(), a pure content measure (reads only a / childSegStacks): a non-nil " + sect +
+							" that only creates or deletes a child collection looks empty, stays where it is and never reaches the lower level"
+					}
+					o.add(fn, fmt.Sprintf("%s depends on %s.%s()", st.what, sect, h.Name()), c.instrPos(iff), !isPure, why)
+				}
+			}
+			if n == 0 {
+				o.add(fn, st.what+" depends on no content measure of a dirty section", c.instrPos(st.i), true, "only nil tests (presence) of the dirty sections control this site")
+			}
+		}
+	}
+	return o.list
+}
+
+// readsFieldDeep: does h, or a moss function it calls statically (to the given depth), read a field of that name?
+func readsFieldDeep(c *Ctx, h *ssa.Function, field string, depth int) bool {
+	if h == nil || h.Blocks == nil {
+		return false
+	}
+	if len(fieldAccesses(h, func(v *types.Var) bool { return v.Name() == field })) > 0 {
+		return true
+	}
+	if depth == 0 {
+		return false
+	}
+	found := false
+	eachInstr(h, func(i ssa.Instruction) {
+		if ci, ok := i.(ssa.CallInstruction); ok && !found {
+			if g := staticCallee(ci); g != nil && g != h && g.Pkg == c.Moss && readsFieldDeep(c, g, field, depth-1) {
+				found = true
+			}
+		}
+	})
+	return found
+}
+
+// skipReturn: the first Return reachable from block b (the return of a skip branch), or b's first instruction.
+func skipReturn(b *ssa.BasicBlock) ssa.Instruction {
+	seen := map[*ssa.BasicBlock]bool{}
+	q := []*ssa.BasicBlock{b}
+	for len(q) > 0 {
+		x := q[0]
+		q = q[1:]
+		if seen[x] {
+			continue
+		}
+		seen[x] = true
+		for _, i := range x.Instrs {
+			if r, ok := i.(*ssa.Return); ok {
+				return r
+			}
+		}
+		q = append(q, x.Succs...)
+	}
+	return b.Instrs[0]
 }
